@@ -97,14 +97,42 @@ def alt_env_sig(m):
 # ---------------------------------------------------------------- F16 seen from checks it does not belong to
 def is_f16(m):
     """`--help` after an item that interrupts the block of an adjacent subcommand gives the subcommand's error (F16, recorded
-    for C10 and C19): other properties' checks replay such lines too and leave the verdict to those two"""
+    for C10 and C19): other properties' checks replay such lines too and leave the verdict to those two.
+    The recorded case is precise: between the name of an adjacent subcommand and the help item sits an occurrence of a
+    plain option that is declared *before* the command (the enclosing level has consumed it by the time the command
+    runs, so the command's window ends in front of it)."""
     d = m.get("def_full") or m.get("def") or {}
     if not isinstance(d, dict):
         return False
-    levels = [d] + [c["level"] for c in d.get("tail", {}).get("cmds", [])]
-    acmd = any(f.get("kind") == "adj" and f["head"]["kind"] == "cmd" for l in levels for f in l.get("named", []))
     e, g = m.get("expect", {}), m.get("got", {})
-    return acmd and e.get("class") == "stdout" and e.get("kind") == "help" and g.get("class") == "stderr"
+    if not (e.get("class") == "stdout" and e.get("kind") == "help" and g.get("class") == "stderr"):
+        return False
+    line = m.get("line") or []
+    levels = [d] + [c["level"] for c in d.get("tail", {}).get("cmds", [])]
+    for l in levels:
+        named = l.get("named", [])
+        for k, f in enumerate(named):
+            if not (f.get("kind") == "adj" and f["head"]["kind"] == "cmd"):
+                continue
+            earlier = {n for g2 in named[:k] if g2.get("kind") in ("switch", "reqflag", "arg") for n in g2["shorts"] + g2["longs"]}
+            # ... or of the branch of an earlier-declared choice that the level has taken (bare/optional choice: the
+            # branch typed leftmost; repeated choice: every branch)
+            for g2 in named[:k]:
+                if g2.get("kind") != "alt":
+                    continue
+                bn = [{n for it in b["fields"] if it.get("kind") != "pos" for n in it["shorts"] + it["longs"]} for b in g2["branches"]]
+                if g2.get("arity") in ("many", "some"):
+                    earlier |= set().union(*bn)
+                else:
+                    first = next((i for it in line for i, ns in enumerate(bn) if it.get("s") in ns), None)
+                    if first is not None:
+                        earlier |= bn[first]
+            names = set(f["head"]["names"])
+            pos = [i for i, it in enumerate(line) if it.get("t") == "word" and it.get("s") in names]
+            hp = [i for i, it in enumerate(line) if it.get("t") == "help"]
+            if pos and hp and any(it.get("s") in earlier for it in line[pos[0] + 1: hp[0]]):
+                return True
+    return False
 
 
 def not_f16(m):
